@@ -82,6 +82,51 @@ macro_rules! bin_forms {
     }};
 }
 
+/// forms with a primitive / UBig / IBig operand: the library converts it with FBig::from (precision = its digits), so
+/// they compute at the case precision exactly when the FBig operand they replace carried just its own digits
+macro_rules! prim_forms {
+    ($g:expr, $fa:expr, $fb:expr, $a:expr, $b:expr, $pa:expr, $pb:expr, $da:expr, $db:expr, $op:tt, $opa:tt) => {{
+        let (fa, fb) = (&$fa, &$fb);
+        if $b.exponent() == 0 && $pb == $db {
+            if let Ok(k) = i64::try_from($b.significand()) {
+                $g.add("f*i64", guarded(|| vf(&(fa $op k))));
+                $g.add("f*i64:v", guarded(|| vf(&(fa.clone() $op k))));
+                $g.add("f*=i64", guarded(|| { let mut x = fa.clone(); x $opa k; vf(&x) }));
+                if let Ok(k8) = u8::try_from(k) {
+                    $g.add("f*u8", guarded(|| vf(&(fa $op k8))));
+                }
+                let kb = $b.significand().clone();
+                $g.add("f*ibig", guarded(|| vf(&(fa $op kb.clone()))));
+                $g.add("f*&ibig", guarded(|| vf(&(fa $op &kb))));
+                if k >= 0 {
+                    let ku = UBig::try_from(kb.clone()).unwrap();
+                    $g.add("f*ubig", guarded(|| vf(&(fa.clone() $op ku.clone()))));
+                }
+            }
+        }
+        if $a.exponent() == 0 && $pa == $da {
+            if let Ok(k) = i64::try_from($a.significand()) {
+                $g.add("i64*f", guarded(|| vf(&(k $op fb))));
+                $g.add("i64*f:v", guarded(|| vf(&(k $op fb.clone()))));
+                $g.add("&i64*f", guarded(|| vf(&(&k $op fb))));
+                if let Ok(k8) = u8::try_from(k) {
+                    $g.add("u8*f", guarded(|| vf(&(k8 $op fb))));
+                }
+                if let Ok(k32) = i32::try_from(k) {
+                    $g.add("i32*f:v", guarded(|| vf(&(k32 $op fb.clone()))));
+                }
+                let kb = $a.significand().clone();
+                $g.add("ibig*f", guarded(|| vf(&(kb.clone() $op fb))));
+                $g.add("&ibig*f:v", guarded(|| vf(&(&kb $op fb.clone()))));
+                if k >= 0 {
+                    let ku = UBig::try_from(kb.clone()).unwrap();
+                    $g.add("ubig*f", guarded(|| vf(&(ku.clone() $op fb))));
+                }
+            }
+        }
+    }};
+}
+
 // ------------------------------------------------------------------ one case, every form
 fn run_case<R: Round, const B: Word>(log: &mut Log, c: &Value, src: &str) {
     let op = c["op"].as_str().unwrap();
@@ -109,18 +154,22 @@ fn run_case<R: Round, const B: Word>(log: &mut Log, c: &Value, src: &str) {
         "add" => {
             ctx_res = guarded(|| rf(ctx.add(&a, &b)));
             bin_forms!(g, fa, fb, +, +=);
+            prim_forms!(g, fa, fb, a, b, pa, pb, da, db, +, +=);
         }
         "sub" => {
             ctx_res = guarded(|| rf(ctx.sub(&a, &b)));
             bin_forms!(g, fa, fb, -, -=);
+            prim_forms!(g, fa, fb, a, b, pa, pb, da, db, -, -=);
         }
         "mul" => {
             ctx_res = guarded(|| rf(ctx.mul(&a, &b)));
             bin_forms!(g, fa, fb, *, *=);
+            prim_forms!(g, fa, fb, a, b, pa, pb, da, db, *, *=);
         }
         "div" => {
             ctx_res = guarded(|| rf(ctx.div(&a, &b)));
             bin_forms!(g, fa, fb, /, /=);
+            prim_forms!(g, fa, fb, a, b, pa, pb, da, db, /, /=);
         }
         "sqr" => {
             ctx_res = guarded(|| rf(ctx.sqr(&a)));
@@ -373,6 +422,19 @@ fn random_case(rng: &mut Rng, max_prec: usize, max_gap: i64) -> Value {
         bsig = IBig::ZERO;
         bexp = 0;
         kind = "zero-operand";
+    }
+    // a small integer operand (exponent 0): the forms with a primitive / big-integer operand apply
+    if matches!(op, "add" | "sub" | "mul" | "div") && rng.below(8) == 0 {
+        let lim = if rng.coin() { 9 } else { 99999 };
+        let k = IBig::from(1 + rng.below(lim) as i64) * if rng.coin() { IBig::ONE } else { IBig::NEG_ONE };
+        if rng.coin() {
+            asig = k;
+            aexp = 0;
+        } else {
+            bsig = k;
+            bexp = 0;
+        }
+        kind = "int-operand";
     }
     if matches!(op, "div") && bsig.is_zero() {
         bsig = IBig::ONE;
